@@ -19,7 +19,7 @@ ASSUMPTIONS = ['property models are monotone in T on 250-500 K for the drawn com
                'mixed temperature is required to land in 200-600 K, otherwise the case is counted as rejected (outside model range)',
                'tolerances from Mixture.T_tol = 1e-6 K (DESIGN.md section 4)']
 REQUIRED_CELLS = {'quick': ['mix:recv=S', 'mix:recv=M', 'mix:multi-inlet', 'mix:Q!=0', 'mix:heat-object', 'mix:self',
-                            'set:H', 'set:h', 'set:S', 'set:Hnet', 'set:multi', 'sep:multi'], 'thorough': []}
+                            'set:H', 'set:h', 'set:S', 'set:Hnet', 'set:multi', 'sep:multi', 'sep:other-at-mixture-T', 'mix:empty-inlet-lowest-P'], 'thorough': []}
 
 PKGS = ['A', 'B', 'C', 'D']
 T_TOL = 1e-6
@@ -66,7 +66,8 @@ def prop_mix(ch, ctx):
     recv_pkg = ch.choice('recv.pkg', chem.SUPERSETS)
     n = ch.int('n', 1, 4)
     self_idx = ch.int('self', -1, n - 1)
-    specs = [draw_inlet(ch, f'in{i}', [recv_pkg] if i == self_idx else PKGS) for i in range(n)]
+    # inlet 0 is non-empty by construction; the others may be empty (their pressure must then be ignored)
+    specs = [draw_inlet(ch, f'in{i}', [recv_pkg] if i == self_idx else PKGS, nonempty=(i == 0)) for i in range(n)]
     rkind = ch.choice('recv.kind', ['S', 'M']) if self_idx < 0 else specs[self_idx]['kind']
     dT = ch.choice('Q.kind', [0.0, None, None])
     if dT is None: dT = ch.float('Q.dT', -40., 40.)
@@ -84,7 +85,9 @@ def prop_mix(ch, ctx):
     Hs = [s.H for s in inlets]
     Ctot = sum(s.C for s in inlets)
     Q = dT * Ctot
-    Pmin = min(s.P for s in inlets)
+    Pmin = min(s.P for s in inlets if vs.dense(s).any())
+    if any(not vs.dense(s).any() for s in inlets): ctx.cell('mix:empty-inlet')
+    if any((not vs.dense(s).any()) and s.P < Pmin for s in inlets): ctx.cell('mix:empty-inlet-lowest-P')
     parts = [Q]
     if nheat:
         # split Q over the keyword and heat objects
@@ -140,15 +143,29 @@ def prop_separate(ch, ctx):
         ctx.reject('mix failed (reported by the mix check)')
     if not (200. < recv.T < 600.): ctx.reject('mixed temperature outside the model range')
     other = inlets[k]
+    if ch.bool('other.at_recv_T'):
+        # the separated stream need not be at its original temperature: same material, at exactly the mixture's T
+        other.T = recv.T
+        ctx.cell('sep:other-at-mixture-T')
     H_before = recv.H
     H_other = other.H
     region = f'recv={rkind},other={vs.kind_tag(specs[k])},xpkg={int(specs[k]["pkg"] != recv_pkg)}'
     if specs[k]['kind'] == 'M': ctx.cell('sep:multi')
-    ctx.call('separate.separate_out', recv.separate_out, other, energy_balance=True, region=region)
+    want = H_before - H_other
+    try:
+        ctx.call('separate.separate_out', recv.separate_out, other, energy_balance=True, region=region,
+                 allowed=(RuntimeError,))
+    except RuntimeError as e:
+        # The material has been removed before the temperature solve; a solver error is a documented rejection only
+        # if no temperature in the model range gives the required enthalpy (checked on the remainder itself).
+        if recv.isempty(): ctx.reject('nothing left')
+        recv.T = 200.; H_lo = recv.H
+        recv.T = 600.; H_hi = recv.H
+        if not (H_lo <= want <= H_hi): ctx.reject('no temperature in 200-600 K gives H_before - H_other')
+        ctx.fail(f'separate.separate_out|{region}|exc:RuntimeError', f'{str(e)[:200]} although H({200})={H_lo!r} <= {want!r} <= H(600)={H_hi!r}')
     if recv.isempty(): ctx.reject('nothing left')
     if not (200. < recv.T < 600.): ctx.reject('remainder temperature outside the model range')
     if not cn_positive(recv): ctx.reject('non-monotone enthalpy model for this composition')
-    want = H_before - H_other
     got = recv.H
     err = abs(got - want)
     t = tol_H(recv, H_before) + 1e-9 * abs(H_other)
